@@ -356,4 +356,83 @@ Section Twin.
     - intros i Hi. rewrite C1. apply is_act_cupd_other; [apply HB; exact Hi|right]. intro Heq. exact (c_vs_t i ia ltac:(lia) Heq).
     - lia.
   Qed.
+
+  (** apply the next block of the candidate next to the active chain *)
+  Lemma twin_applyB : forall s ia ib b,
+      twin s ia (S ib) -> bfind (blocks _ _ s) (up l0 ib c) = Some b -> is_failed _ b = false ->
+      on_active_chain pstate ccmd s (up l0 ib c) = false ->
+      exists s' ok, c_applyBlock s (up l0 ib c) = Ok (s', ok) /\
+                    (ok = true -> twin s' ia ib) /\ (ok = false -> twin s' ia (S ib) /\ failed_in s' (up l0 ib c)).
+  Proof.
+    intros s ia ib b T Fb Hnf Hoac. pose proof T as (F & G & Hia & Hib & HA & HB & Hn). pose proof G as ((W & K) & C & U).
+    assert (Hlt : (ib < kb)%nat) by lia.
+    set (x := up l0 ib c) in *.
+    assert (Hxr : x <> r0) by (apply c_not_root; exact Hlt).
+    pose proof (find_cfind _ _ _ Fb) as Cb.
+    assert (Hpar : b_par ccmd b = up l0 (S ib) c).
+    { rewrite <- parent_up_c. fold x. rewrite <- (static_parent s x F). unfold parent. rewrite Cb. reflexivity. }
+    pose proof (twin_parent_act s ia ib T) as Hpact.
+    destruct (is_act_find _ _ Hpact) as (pb & Fpb & Apb). rewrite <- Hpar in Fpb.
+    assert (Hina : b_act ccmd b = false).
+    { destruct (b_act ccmd b) eqn:Ab; [|reflexivity]. exfalso.
+      assert (Hxa : is_act (cores s) x) by (exists (core b); split; [exact Cb|exact Ab]).
+      destruct (twin_exact s ia (S ib) T _ Hxa) as [(k & Hk)|(i & Hi & Hk)].
+      - exact (c_vs_t ib (ia + k) Hlt Hk).
+      - apply c_inj in Hk; lia. }
+    assert (Hnc : child_active ccmd (blocks _ _ s) x = false).
+    { apply (twin_no_child s ia (S ib) x T Hxr).
+      - intros k _ Hp. rewrite parent_up_t in Hp. exact (c_vs_t ib (S (ia + k)) Hlt (eq_sym Hp)).
+      - intros i Hi Hp. rewrite parent_up_c in Hp. apply c_inj in Hp; lia. }
+    assert (Hfc : b_fc ccmd b = false) by (unfold is_failed in Hnf; apply orb_false_iff in Hnf; apply Hnf).
+    assert (Hfp : b_fp ccmd b = false).
+    { unfold is_failed in Hnf. apply orb_false_iff in Hnf. destruct Hnf as [Hnf' _]. apply orb_false_iff in Hnf'. apply Hnf'. }
+    assert (Hl2 : N.ltb (b_lvl ccmd b) L_CONNECTED = false).
+    { apply N.ltb_ge. destruct K as (_ & _ & _ & _ & _ & C5). exact (C5 _ _ Fb). }
+    assert (Hpl : N.le L_MAYBE (b_lvl ccmd pb)).
+    { destruct K as (_ & _ & _ & _ & C3 & _). exact (proj2 (C3 _ _ Fpb Apb)). }
+    assert (Hxrs : x <> root _ _ s) by (rewrite (fr_root _ _ F); exact Hxr).
+    assert (E : exists s' ok, c_applyBlock s x = Ok (s', ok)).
+    { unfold c_applyBlock, applyBlock. rewrite Fb. pose proof Hxrs as Hxr'. apply N.eqb_neq in Hxr'. rewrite Hxr'. rewrite Fpb, Apb. cbn [negb].
+      rewrite Hina, Hnc, Hfc, Hnf, Hl2.
+      destruct (gsexec pstate ccmd cexec cunexec [] (b_gs ccmd b) (pst pstate ccmd s)) as [p' okg] eqn:Eg.
+      destruct okg; cbn [negb].
+      - match goal with |- context [N.ltb (b_lvl ccmd b) ?u && N.ltb (b_lvl ccmd pb) ?u] => assert (Hu : N.ltb (b_lvl ccmd b) u && N.ltb (b_lvl ccmd pb) u = false) end.
+        { destruct (valid_upto ccmd pb L_FULL) eqn:Vp; cbn [andb].
+          - destruct (Z.eqb (b_h ccmd b) _).
+            + apply andb_false_iff. right. apply N.ltb_ge. unfold valid_upto in Vp. apply andb_prop in Vp. apply N.leb_le. apply Vp.
+            + apply andb_false_iff. right. apply N.ltb_ge. exact Hpl.
+          - apply andb_false_iff. right. apply N.ltb_ge. exact Hpl. }
+        rewrite Hu. eexists. eexists. reflexivity.
+      - unfold invalidate_pop. cbn [blocks with_pst]. rewrite Fb, Hfp, Hnf.
+        match goal with |- context [on_active_chain pstate ccmd ?S x] => replace (on_active_chain pstate ccmd S x) with false by (symmetry; exact Hoac) end.
+        destruct (N.eqb (b_lvl ccmd b) L_FULL) eqn:El.
+        + exfalso. apply N.eqb_eq in El.
+          destruct (up_c_found (S ib) ltac:(lia)) as (ep & Hep).
+          destruct (dep_facts s0 _ _ W0 K0 Hep) as (Dp & _).
+          pose proof (fr_static _ _ F) as Sst. pose proof (fun y => hgt_static _ _ y Sst) as HS.
+          destruct (groups_succeed_sub base s (up l0 (S ib) c) x b W C U Hpact) as (p'' & Eg'); try assumption.
+          * rewrite (fr_root _ _ F), !HS. unfold dep in Dp. exact Dp.
+          * lia.
+          * rewrite Eg in Eg'. discriminate.
+        + cbn [bind]. eexists. eexists. reflexivity. }
+    destruct E as (s' & ok & E). exists s', ok. split; [exact E|].
+    pose proof (ginv_apply _ _ _ _ _ G E) as G'.
+    destruct ok.
+    - split; [|discriminate]. intros _.
+      destruct (apply_ok_core _ _ _ W E) as (W1 & C1 & N1 & R1 & T1 & (e0 & He0 & _)).
+      assert (S1 : same_static (cores s) (cores s')) by (rewrite C1; apply same_static_cupd).
+      split; [eapply frame_trans; [exact F|constructor; assumption]|]. split; [exact G'|]. split; [exact Hia|]. split; [lia|]. split; [|split].
+      + intros k. rewrite C1. apply is_act_cupd_other; [apply HA|left; reflexivity].
+      + intros i Hi. rewrite C1. destruct (Nat.eq_dec i ib) as [->|n].
+        * fold x. exists (setact x true e0). rewrite cfind_cupd', He0. split; [reflexivity|].
+          unfold setact. apply cfind_some in He0. destruct He0 as [Hid _]. rewrite Hid, N.eqb_refl. reflexivity.
+        * apply is_act_cupd_other; [apply HB; lia|left; reflexivity].
+      + rewrite N1. lia.
+    - split; [discriminate|]. intros _.
+      destruct (apply_fail_core _ _ _ E) as (C1 & N1 & R1 & T1).
+      assert (W1 : wf s') by (unfold wf; rewrite C1, R1, N1; exact W).
+      split; [|exact (apply_fail_failed s x s' W E)].
+      split; [eapply frame_trans; [exact F|constructor; [exact W1|rewrite C1; apply same_static_refl|exact R1|exact T1]]|].
+      split; [exact G'|]. split; [exact Hia|]. split; [exact Hib|]. rewrite C1, N1. split; [exact HA|split; [exact HB|exact Hn]].
+  Qed.
 End Twin.
